@@ -912,4 +912,35 @@ theorem reachableDrained_run {c : Cfg} {s : State} (h : ReachableDrained c s) (a
         | _ => trivial
       | _ => trivial
 
+-- ------------------------------------------------------------------ drained ids are in particular not live
+theorem fresh_of_drained {s : State} {a : Action} (h : DrainStep s a) : FreshStep s a := by
+  cases a with
+  | recv p r =>
+    cases r with
+    | new id cfg =>
+      obtain ⟨⟨h1, _, _⟩, h2, h3⟩ := h
+      refine ⟨?_, ?_, ?_⟩
+      · intro hk
+        obtain ⟨r, hr, hrk⟩ := List.mem_map.1 hk
+        have hid : r.id = id := congrArg Prod.snd hrk
+        have : entOf s id ≠ none := by
+          unfold entOf lookup
+          cases hf : s.table.find? (·.id == id) with
+          | none =>
+            have := List.find?_eq_none.1 hf r hr
+            simp [hid] at this
+          | some r' => simp
+        exact this h1
+      · intro hk
+        exact h2 (List.mem_map.2 ⟨(p, id), hk, rfl⟩)
+      · intro hk
+        exact h3 (p, id) hk rfl
+    | _ => trivial
+  | _ => trivial
+
+theorem reachableFresh_of_drained {c : Cfg} {s : State} (h : ReachableDrained c s) : ReachableFresh c s := by
+  induction h with
+  | init => exact ReachableFresh.init
+  | step _ hd hs ih => exact ReachableFresh.step ih (fresh_of_drained hd) hs
+
 end GS.RespLife
